@@ -181,6 +181,10 @@ def e2e_job(j):
 
 # ----------------------------------------------------------------------------- part 3: selection
 
+def L_exists_before(saved, disk, sub):
+    return ("%s/%s" % (disk, sub)) in saved["ents"]
+
+
 def sel_job(j):
     opts, seed = j
     cfg = Config(levels=1, ndisks=2)
@@ -190,6 +194,10 @@ def sel_job(j):
         for d, fs in files.items():
             for f in fs:
                 L.write(d, f, L.gen(d + f, 1500))
+        L.symlink("d1", "lnk", "a")
+        L.symlink("d2", "dir/lnk2", "../a")
+        L.mkdir("d1", "emptyA")
+        L.mkdir("d2", "dir/emptyB")
         L.run("sync")
         c = L.content()
         # damage: one missing file per disk, one silently corrupted file marked bad by a scrub
@@ -199,7 +207,10 @@ def sel_job(j):
         L.run("scrub", "-p", "full")
         L.rm("d1", "dir/a")
         L.rm("d2", "x.t")
+        for d_, p_ in (("d1", "lnk"), ("d2", "dir/lnk2"), ("d1", "emptyA"), ("d2", "dir/emptyB")):
+            L.rm(d_, p_)
         c = L.content()
+        S = L.save()
         bad_pos = {i for i, inf in enumerate(c.info) if inf is not None and inf[1]}
         r = L.run("check", "-v", *opts)
         if "You cannot use" in r.text():
@@ -243,6 +254,33 @@ def sel_job(j):
         ch = r.changed() - {"c0/content.lock"}
         if ch:
             viols.append(dict(kind="check-wrote", opts=opts, paths=sorted(ch)))
+        # the same selection in fix: nothing outside it is written (files, links and empty directories)
+        L.restore(S)
+        rf = L.run("fix", *opts)
+        sel_links, sel_dirs = set(), set()
+        frules = [(1, R.parse(p)) for p in fpat]
+        for d in c.disks.values():
+            dn = d.name.decode()
+            for kind_, sub_, to_ in d.links:
+                sub = sub_.decode()
+                ok = (not fpat or R.file_included_first_match(frules, sub)) and (dsel is None or dn == dsel) and (not miss or not L_exists_before(S, dn, sub))
+                if ok:
+                    sel_links.add((dn, sub))
+            for sub_ in d.dirs:
+                sub = sub_.decode()
+                ok = (not fpat or R.emptydir_included(frules, sub)) and (dsel is None or dn == dsel) and (not miss or not L_exists_before(S, dn, sub))
+                if ok:
+                    sel_dirs.add((dn, sub))
+        allowed = set()
+        for dn, sub in want | sel_links | sel_dirs:
+            parts = sub.split("/")
+            for k in range(1, len(parts) + 1):
+                allowed.add("%s/%s" % (dn, "/".join(parts[:k])))
+            allowed.add("%s/%s.unrecoverable" % (dn, sub))
+        for rel in sorted(rf.changed()):
+            top = rel.split("/", 1)[0]
+            if top in L.cfg.disknames and rel not in allowed:
+                viols.append(dict(kind="fix-wrote-outside-selection", opts=opts, path=rel))
     return dict(viols=viols, n=len(want))
 
 
